@@ -7,6 +7,7 @@ has been spawned but has not yet executed its own `wg.Add(1)` is not counted. -/
 def weight (ae : Bool) : WSt → Int
   | .spawned => if ae then 1 else 0
   | .running => 1
+  | .writing => 1
   | _ => 0
 
 def pendingW (ae : Bool) : List Conn → Int
@@ -49,17 +50,22 @@ theorem pendingW_set (ae : Bool) : ∀ (cs : List Conn) (i : Nat) (c c' : Conn),
     have := pendingW_set ae r i c c' h
     simp [pendingW, this]; omega
 
-theorem invW_init (ae : Bool) : InvW ae init := by simp [InvW, init, base, pendingW]
+theorem invW_init (ae : Bool) (nc rc : Nat) : InvW ae (initWith nc rc) := by simp [InvW, initWith, base, pendingW]
 
 theorem invW_step (ae : Bool) (s s' : St) (l : Lbl) (hc : InvC s) (hi : InvW ae s) (hs : step ae s l = some s') : InvW ae s' := by
   unfold InvW at *
   cases l with
   | cancel => have := step_cancel hs; subst this; exact hi
+  | offer => have := step_offer hs; subst this; exact hi
+  | consumerStop => have := step_consumerStop hs; subst this; exact hi
+  | consumerResume => have := step_consumerResume hs; subst this; exact hi
+  | tick d => have := step_tick hs; subst this; exact hi
   | dialFail => obtain ⟨hp, rfl⟩ := step_dialFail hs; simp [hp, base] at hi ⊢; exact hi
-  | noConnTimer => obtain ⟨hp, rfl⟩ := step_noConnTimer hs; simp [hp, base] at hi ⊢; exact hi
-  | sleepDone => obtain ⟨hp, rfl⟩ := step_sleepDone hs; simp [hp, base] at hi ⊢; exact hi
+  | noConnTimer => obtain ⟨hp, _, rfl⟩ := step_noConnTimer hs; simp [hp, base] at hi ⊢; exact hi
+  | noConnDrain => obtain ⟨hp, _, rfl⟩ := step_noConnDrain hs; simp [hp, base] at hi ⊢; exact hi
+  | sleepDone => obtain ⟨hp, _, rfl⟩ := step_sleepDone hs; simp [hp, base] at hi ⊢; exact hi
   | onConnect => obtain ⟨hp, rfl⟩ := step_onConnect hs; simp [hp, base] at hi ⊢; exact hi
-  | dialOk =>
+  | dialOk bin =>
     obtain ⟨hp, rfl⟩ := step_dialOk hs
     simp [hp, base, pendingW, weight] at hi ⊢; exact hi
   | ret =>
@@ -68,15 +74,21 @@ theorem invW_step (ae : Bool) (s s' : St) (l : Lbl) (hc : InvC s) (hi : InvW ae 
   | peerClose =>
     obtain ⟨c, rest, hcs, _, rfl⟩ := step_peerClose hs
     simp [hcs, pendingW] at hi ⊢; exact hi
-  | frameComplete =>
-    obtain ⟨c, rest, hcs, _, _, rfl⟩ := step_frameComplete hs
+  | byteArrive fin =>
+    obtain ⟨c, rest, hcs, _, _, rfl⟩ := step_byteArrive hs
+    simp [hcs, pendingW] at hi ⊢; exact hi
+  | takeFrame =>
+    obtain ⟨c, rest, hcs, _, _, _, _, rfl⟩ := step_takeFrame hs
     simp [hcs, pendingW] at hi ⊢; exact hi
   | deliver =>
     obtain ⟨c, rest, hcs, _, _, _, rfl⟩ := step_deliver hs
     simp [hcs, pendingW] at hi ⊢; exact hi
   | readErr =>
-    obtain ⟨c, rest, hcs, hp, _, rfl⟩ := step_readErr hs
+    obtain ⟨c, rest, hcs, hp, _, _, rfl⟩ := step_readErr hs
     simp [hp, base] at hi ⊢; exact hi
+  | readFault =>
+    obtain ⟨c, rest, hcs, hp, _, _, _, _, _, rfl⟩ := step_readFault hs
+    simp [hcs, hp, base, pendingW] at hi ⊢; exact hi
   | closeQuit =>
     obtain ⟨c, rest, hcs, hp, rfl⟩ := step_closeQuit hs
     simp [hcs, hp, base, pendingW] at hi ⊢; exact hi
@@ -105,10 +117,25 @@ theorem invW_step (ae : Bool) (s s' : St) (l : Lbl) (hc : InvC s) (hi : InvW ae 
     simp only []
     rw [pendingW_set ae s.conns i c _ hcs]
     simp [weight, hw] at hi ⊢; omega
+  | writerTake i =>
+    obtain ⟨c, hcs, hw, _, rfl⟩ := step_writerTake hs
+    simp only []
+    rw [pendingW_set ae s.conns i c _ hcs]
+    simp [weight, hw] at hi ⊢; omega
+  | writeDone i =>
+    obtain ⟨c, hcs, hw, _, rfl⟩ := step_writeDone hs
+    simp only []
+    rw [pendingW_set ae s.conns i c _ hcs]
+    simp [weight, hw] at hi ⊢; omega
+  | writeErr i =>
+    obtain ⟨c, hcs, hw, _, rfl⟩ := step_writeErr hs
+    simp only []
+    rw [pendingW_set ae s.conns i c _ hcs]
+    simp [weight, hw] at hi ⊢; omega
 
 theorem invW_reachable {ae : Bool} {s : St} (h : Reachable ae s) : InvW ae s := by
   induction h with
-  | init => exact invW_init ae
+  | init nc rc => exact invW_init ae nc rc
   | step l hr hs ih => exact invW_step ae _ _ l (invC_reachable hr) ih hs
 
 /-! ### D: a new dial only after the retry sleep -/
@@ -130,25 +157,32 @@ structure InvD (s : St) : Prop where
   dials : dialsOk s.log = true
   slept : (s.phase = .dialing ∨ s.phase = .noConnWait) → sleptSinceDisc s.log = true
 
-theorem invD_init : InvD init := ⟨by simp [init, dialsOk], by simp [init, sleptSinceDisc]⟩
+theorem invD_init (nc rc : Nat) : InvD (initWith nc rc) := ⟨by simp [initWith, dialsOk], by simp [initWith, sleptSinceDisc]⟩
 
 theorem invD_step (ae : Bool) (s s' : St) (l : Lbl) (hi : InvD s) (hs : step ae s l = some s') : InvD s' := by
   cases l with
   | cancel => have := step_cancel hs; subst this; exact ⟨hi.dials, hi.slept⟩
+  | offer => have := step_offer hs; subst this; exact ⟨hi.dials, hi.slept⟩
+  | consumerStop => have := step_consumerStop hs; subst this; exact ⟨hi.dials, hi.slept⟩
+  | consumerResume => have := step_consumerResume hs; subst this; exact ⟨hi.dials, hi.slept⟩
+  | tick d => have := step_tick hs; subst this; exact ⟨hi.dials, hi.slept⟩
   | dialFail => obtain ⟨hp, rfl⟩ := step_dialFail hs; exact ⟨hi.dials, fun _ => hi.slept (Or.inl hp)⟩
-  | noConnTimer => obtain ⟨hp, rfl⟩ := step_noConnTimer hs; exact ⟨hi.dials, fun _ => hi.slept (Or.inr hp)⟩
-  | sleepDone => obtain ⟨hp, rfl⟩ := step_sleepDone hs; exact ⟨by simpa [dialsOk] using hi.dials, by simp [sleptSinceDisc]⟩
+  | noConnTimer => obtain ⟨hp, _, rfl⟩ := step_noConnTimer hs; exact ⟨hi.dials, fun _ => hi.slept (Or.inr hp)⟩
+  | noConnDrain => obtain ⟨hp, _, rfl⟩ := step_noConnDrain hs; exact ⟨hi.dials, fun _ => hi.slept (Or.inr hp)⟩
+  | sleepDone => obtain ⟨hp, _, rfl⟩ := step_sleepDone hs; exact ⟨by simpa [dialsOk] using hi.dials, by simp [sleptSinceDisc]⟩
   | onConnect => obtain ⟨hp, rfl⟩ := step_onConnect hs; exact ⟨by simpa [dialsOk] using hi.dials, by simp⟩
-  | dialOk =>
+  | dialOk bin =>
     obtain ⟨hp, rfl⟩ := step_dialOk hs
     exact ⟨by simp [dialsOk, hi.dials, hi.slept (Or.inl hp)], by simp⟩
   | ret => obtain ⟨hp, rfl⟩ := step_ret hs; exact ⟨by simpa [dialsOk] using hi.dials, by simp⟩
   | peerClose => obtain ⟨c, rest, hcs, _, rfl⟩ := step_peerClose hs; exact ⟨hi.dials, hi.slept⟩
-  | frameComplete => obtain ⟨c, rest, hcs, _, _, rfl⟩ := step_frameComplete hs; exact ⟨hi.dials, hi.slept⟩
+  | byteArrive fin => obtain ⟨c, rest, hcs, _, _, rfl⟩ := step_byteArrive hs; exact ⟨hi.dials, hi.slept⟩
+  | takeFrame => obtain ⟨c, rest, hcs, _, _, _, _, rfl⟩ := step_takeFrame hs; exact ⟨hi.dials, hi.slept⟩
   | deliver =>
     obtain ⟨c, rest, hcs, hp, _, _, rfl⟩ := step_deliver hs
     exact ⟨by simpa [dialsOk] using hi.dials, by simp [hp]⟩
-  | readErr => obtain ⟨c, rest, hcs, hp, _, rfl⟩ := step_readErr hs; exact ⟨hi.dials, by simp⟩
+  | readErr => obtain ⟨c, rest, hcs, hp, _, _, rfl⟩ := step_readErr hs; exact ⟨hi.dials, by simp⟩
+  | readFault => obtain ⟨c, rest, hcs, hp, _, _, _, _, _, rfl⟩ := step_readFault hs; exact ⟨hi.dials, by simp⟩
   | closeQuit => obtain ⟨c, rest, hcs, hp, rfl⟩ := step_closeQuit hs; exact ⟨hi.dials, by simp⟩
   | connClose => obtain ⟨c, rest, hcs, hp, rfl⟩ := step_connClose hs; exact ⟨hi.dials, by simp⟩
   | onDisconnect b =>
@@ -158,10 +192,13 @@ theorem invD_step (ae : Bool) (s s' : St) (l : Lbl) (hi : InvD s) (hs : step ae 
   | writerStart i => obtain ⟨c, hcs, hw, rfl⟩ := step_writerStart hs; exact ⟨hi.dials, hi.slept⟩
   | writerSeesCancel i => obtain ⟨c, hcs, hw, _, rfl⟩ := step_writerSeesCancel hs; exact ⟨hi.dials, hi.slept⟩
   | writerSeesQuit i => obtain ⟨c, hcs, hw, _, rfl⟩ := step_writerSeesQuit hs; exact ⟨hi.dials, hi.slept⟩
+  | writerTake i => obtain ⟨c, hcs, hw, _, rfl⟩ := step_writerTake hs; exact ⟨hi.dials, hi.slept⟩
+  | writeDone i => obtain ⟨c, hcs, hw, _, rfl⟩ := step_writeDone hs; exact ⟨hi.dials, hi.slept⟩
+  | writeErr i => obtain ⟨c, hcs, hw, _, rfl⟩ := step_writeErr hs; exact ⟨hi.dials, hi.slept⟩
 
 theorem invD_reachable {ae : Bool} {s : St} (h : Reachable ae s) : InvD s := by
   induction h with
-  | init => exact invD_init
+  | init nc rc => exact invD_init nc rc
   | step l _ hs ih => exact invD_step ae _ _ l ih hs
 
 end RawPanelVerif.Lifecycle
